@@ -429,8 +429,15 @@ class Resolver:
                     out |= self.typeof(v, FuncInfo(k.module, f"{k.name}.<body>", k.node, k, None), (), depth + 1)
             if not out or True:
                 # instance assignments `self.attr = value` in any method of the class chain and,
-                # for metaclass-style classes, `cls.attr = value`
-                for k in classes + self.p.subclasses(c):
+                # for classes built by a metaclass of the package, `cls.attr = value` in the metaclass
+                metas = []
+                for k in classes:
+                    for kw in getattr(k.node, "keywords", []) or []:
+                        if kw.arg == "metaclass":
+                            mname = ast.unparse(kw.value).split(".")[-1]
+                            if mname in self.p.classes:
+                                metas.extend(self.p.mro(self.p.classes[mname]))
+                for k in classes + self.p.subclasses(c) + metas:
                     for ms in k.methods.values():
                         for m in ms:
                             recv = m.params[0] if m.params else None
